@@ -25,6 +25,21 @@ Qed.
 Lemma obj_eta o : mkobj (o_file o) (o_contents o) (o_raw o) (o_state o) = o.
 Proof. destruct o; reflexivity. Qed.
 
+(* ---- the separator append() may put in front of its marker: nothing when the contents end with a newline ---- *)
+Lemma ends_with_nl a : ends_with [NL] (a ++ [NL]) = true.
+Proof.
+  unfold ends_with. rewrite app_length. cbn [length]. replace (length a + 1 - 1)%nat with (length a + 0)%nat by lia.
+  rewrite skipn_app. rewrite Nat.add_0_r, skipn_all, Nat.sub_diag. reflexivity.
+Qed.
+
+Lemma append_sep_nl a : append_sep (a ++ [NL]) = [].
+Proof.
+  unfold append_sep. destruct append_fix; [|reflexivity]. rewrite ends_with_nl. destruct (a ++ [NL]); reflexivity.
+Qed.
+
+Lemma append_sep_nil : append_sep [] = [].
+Proof. unfold append_sep. destruct append_fix; reflexivity. Qed.
+
 (* ---- refusals ---- *)
 (* a write never replaces an existing file: Refused, file system and object as they were *)
 Theorem write_existing_refused fs o target cmts old : target <> [] -> fs_get fs target = Some old ->
@@ -95,8 +110,8 @@ Proof.
   destruct (append_pairs (o_state o) d) as [ps|], (append_rows (table_names (o_state o)) d) as [rs|]; try discriminate.
   destruct (ps ++ rs) as [|x0 body] eqn:Eb; [discriminate|]. destruct (fs_get fs (o_file o)) as [old|] eqn:Eg; [|discriminate].
   destruct (parse _); [|discriminate]. intros H. inversion H; subst. cbn [o_contents o_file].
-  exists old, (S_APPENDED ++ clock ++ [46; NL] ++ x0 :: body). repeat split; auto.
-  - unfold S_APPENDED. discriminate.
+  exists old, (append_sep (o_contents o) ++ S_APPENDED ++ clock ++ [46; NL] ++ x0 :: body). repeat split; auto.
+  - unfold S_APPENDED. destruct (append_sep (o_contents o)); discriminate.
   - apply fs_get_set_same.
   - intros q Hq. now apply fs_get_set_other.
 Qed.
